@@ -1,6 +1,8 @@
 #!/usr/bin/env python3
 """development aid: run checks against patches on scratch copies of /repo (never touches /repo, evidence/ or replays/)
-usage: try_patch.py <glob of dirs containing patch.diff> [--props C01,C02 | --all] [--jobs N]"""
+usage: try_patch.py <ABSOLUTE glob of dirs containing patch.diff> [--props C01,C02 | --all] [--jobs N]
+The checks read contracts/ and tools/ of this working tree on every run: do not edit them while a series runs (or start the series with
+`vp run`, which works on a snapshot of the committed files)."""
 import sys, os, glob, json, re
 from concurrent.futures import ThreadPoolExecutor
 HERE = os.path.dirname(os.path.abspath(__file__))
